@@ -94,7 +94,7 @@ def wellformed(OUT, table):
             if name in ('Call', 'ReturnCall', 'RefFunc'):
                 chk('func', conc(one[0]), 'body %d %s' % (j, name))
                 if name == 'RefFunc' and conc(one[0]) not in declared:
-                    bad.append('body %d ref.func %d: undeclared function reference (not exported, in no element segment, in no global initialiser)' % (j, conc(one[0])))
+                    bad.append(('undeclared-ref.func', conc(one[0]), 'body %d ref.func %d: undeclared function reference (not exported, in no element segment, in no global initialiser)' % (j, conc(one[0]))))
             elif name in ('CallIndirect', 'ReturnCallIndirect'):
                 chk('type', conc(fl.get('type_index', fl.get('ty', one[0]))), 'body %d %s' % (j, name))
                 chk('table', conc(fl.get('table_index', fl.get('table', one[-1]))), 'body %d %s' % (j, name))
@@ -139,12 +139,58 @@ def wellformed(OUT, table):
     return bad
 
 
+def input_declarations(spec, OUT, out_func):
+    """how the INPUT declared the function that the output's function index `out_func` stands for (identified by its tag):
+    sorted kinds among export / active / passive / declared / global"""
+    nimp_out = sum(1 for i in OUT['imports'] if i['kind'] == 'func')
+    nimp_in = sum(1 for i in spec.imports if i['kind'] == 'func')
+    k = None
+    if out_func >= nimp_out and out_func - nimp_out < len(OUT['code']):
+        ins = OUT['code'][out_func - nimp_out]['instrs']
+        tag = str(ins[0].f[0]) if ins and isinstance(ins[0], Enum) and ins[0].variant == 'I32Const' else None
+        for j, t in enumerate(getattr(spec, 'func_tags', []) or []):
+            if tag is not None and t in tag:
+                k = nimp_in + j
+    if k is None:
+        return '?'
+    kinds = set()
+    for e in spec.exports:
+        if e['kind'] == 'Func' and conc(e['index']) == k:
+            kinds.add('export')
+    for e in spec.elements:
+        if e['items'][0] == 'funcs':
+            hit = any(conc(x) == k for x in e['items'][1])
+        else:
+            hit = any(x.variant == 'RefFunc' and conc(x.f[0]) == k for x in e['items'][2])
+        if hit:
+            kinds.add(e['mode'])
+    for g in spec.globals:
+        if g['init'].variant == 'RefFunc' and conc(g['init'].f[0]) == k:
+            kinds.add('global')
+    return '+'.join(sorted(kinds)) or 'none'
+
+
 def edit_add_import_table(I, P, st, mref, spec):
     """Module::add_import_table after parse (a well-formed edit through the public API)"""
     fn = I.method('add_import_table', impl_ty='Module')
     out = []
     I.run(fn, [mref, S('late'), S('tbl'), z3.BoolVal(False), sym('lt_init', 'u64'), none(), Enum('RefType', 'Funcref')], st, lambda s, v: out.append((s, v)))
     return out
+
+
+def reffunc_decl_spec(how):
+    """a live body takes ref.func of a function whose ONLY declaration is an unused passive segment / an unused global
+    initialiser (which GC removes)"""
+    sp = Spec()
+    sp.types = [([], [])]
+    sp.funcs = [dict(type=0, ops=scen.tagged_body('f0_tag', 0, [OP('RefFunc', function_index=u32(1)), OP('Drop')])), dict(type=0, ops=scen.tagged_body('f1_tag', 1))]
+    sp.func_tags = ['f0_tag', 'f1_tag']
+    sp.exports = [dict(name=S('run'), kind='Func', index=u32(0))]
+    if how == 'passive':
+        sp.elements = [dict(mode='passive', items=('funcs', [u32(1)]))]
+    else:
+        sp.globals = [scen.glob('g', 'funcref', OP('RefFunc', function_index=u32(1)), mutable=False)]
+    return sp
 
 
 def scenarios(tier, seed=0):
@@ -158,6 +204,8 @@ def scenarios(tier, seed=0):
         L.append(('gc/' + n + '/no-gc', mk(), ('emit',), None))
     L.append(('named', c13.named_spec(0), ('gc', 'emit'), None))
     L.append(('customs', c12.customs_spec('full'), ('gc', 'emit', 'emit'), None))
+    for how in ('passive', 'global'):
+        L.append(('gc/ref.func-declared-only-by-unused-%s' % how, reffunc_decl_spec(how), ('gc', 'emit'), None))
     L.append(('edit/add-import-table', scen.full_module(0), ('emit',), edit_add_import_table))
     L.append(('edit/add-import-table+gc', scen.full_module(0), ('gc', 'emit'), edit_add_import_table))
     for name, sp in gen.generated(tier, seed):
@@ -205,7 +253,12 @@ def run_scenario(ctx, report, name, spec, steps, edit, table, timeout_ms):
                             n += 1
                             OUT = modcmp.out_module(rec)
                             for pbm in wellformed(OUT, table):
-                                vios.append({'key': 'malformed', 'what': '[%s] emitted module is malformed: %s' % (name, pbm), 'spec': None if edit else spec, 'model': None, 'pc': list(s2.pc), 'steps': steps,
+                                key = 'malformed'
+                                if isinstance(pbm, tuple):
+                                    # role of the finding: how the input had declared the function whose declaration is gone
+                                    key = 'malformed.%s[after:%s;input-declarations:%s]' % (pbm[0], '+'.join(steps[:-1]) or 'emit', input_declarations(spec, OUT, pbm[1]) if not edit else '?')
+                                    pbm = pbm[2]
+                                vios.append({'key': key, 'what': '[%s] emitted module is malformed: %s' % (name, pbm), 'spec': None if edit else spec, 'model': None, 'pc': list(s2.pc), 'steps': steps,
                                              'native_check': native_valid})
                             nxt.append(s2)
                 states = nxt
